@@ -196,8 +196,8 @@ impl Check for C02 {
 fn strategy(tier: Tier) -> BoxedStrategy<Case> {
     let maxops = tier.pick(80usize, 400usize);
     (
-        prop_oneof![8 => 1usize..=64, 1 => 1usize..=3000],
-        prop_oneof![8 => 1usize..=8, 1 => 1usize..=24],
+        prop_oneof![160 => 1usize..=64, 20 => 1usize..=3000, 1 => prop_oneof![Just(65_535usize), Just(65_536), Just(65_537), Just(1usize << 20), Just((1usize << 20) + 1)]],
+        prop_oneof![16 => 1usize..=8, 2 => 1usize..=24, 1 => prop_oneof![Just(63usize), Just(64), Just(65), Just(128), Just(129), Just(255), Just(256), Just(257), 25usize..=300]],
         prop_oneof![Just(CType::U8), Just(CType::U16), Just(CType::U32), Just(CType::U64), Just(CType::Usize)],
         prop_oneof![2 => Just(HKind::Sip), 1 => (0u64..50).prop_map(HKind::Seeded), 4 => Just(HKind::Split), 1 => (0u64..70).prop_map(HKind::Const), 1 => (1u64..9).prop_map(HKind::Mod), 1 => Just(HKind::Ident), 1 => any::<u64>().prop_map(HKind::Mix)],
         prop::collection::vec(key_spec(), 1..32),
@@ -211,16 +211,24 @@ fn strategy(tier: Tier) -> BoxedStrategy<Case> {
             0..maxops,
         ),
     )
-        .prop_map(|(w, d, ctype, hk, universe, ops)| Case { w, d, ctype, hk, universe, ops })
+        .prop_map(|(w, d, ctype, hk, universe, mut ops)| {
+            // a very wide sketch costs megabytes per (re)allocation: few rows, short histories
+            let d = if w > 3000 { d.min(2) } else { d };
+            let w = if d > 24 { w.min(64) } else { w };
+            if w > 3000 {
+                ops.truncate(25);
+            }
+            Case { w, d, ctype, hk, universe, ops }
+        })
         .boxed()
 }
 
 pub fn checks() -> Vec<Box<dyn DynCheck>> {
-    vec![Box::new(C02), Box::new(super::extendpaths::ExtCms), Box::new(super::extendpaths::HashIterCheck)]
+    vec![Box::new(C02), Box::new(super::extendpaths::ExtCms), Box::new(super::extendpaths::HashIterCheck), Box::new(super::giant::Giant)]
 }
 
 pub fn run(ctx: &Ctx) {
-    ctx.set_rule("generated: w in 1..=64 (rarely up to 3000), d in 1..=8 (rarely up to 24; w != d in most cases, both w > d and d > w), counter type in {u8,u16,u32,u64,usize}, hashers incl. row colliders (Split with chosen h1/h2, Const, Mod), universe <=32 keys, history of add/add_n/merge/clear with weights scaled to the remaining head-room so the documented overflow panic is never provoked. After every op, for every universe key: true(x) <= query_point(x) <= N; add/add_n return == query_point right after; a single distinct element is exact. Non-trivial: an overestimate was observed (two keys share a cell in every row), or a merge followed by an add, or w != d with d >= 2. Distinct = hash of the case; evaluations = operations executed. extend_path: default-hasher CountMinSketch (w 1..64, d 1..4) fed through Extend::extend in generated chunks: query_point never below the true count after any chunk and equal to a sketch filled by add calls. hash_iter: HashIterBuilder::new(m, k, hasher) for m in 1..2^31 and k in 0..=40 under the generated hasher families: iter_for yields exactly k values, all in [0, m), deterministically, f(i) in [0, m), and values #2.. equal (h1 + i*h2 + f(i)) mod m with h1, h2 solved from values #0 and #1 (the documented enhanced double hashing).");
+    ctx.set_rule("generated: w in 1..=64 (rarely up to 3000, very rarely 65535..65537, 2^20, 2^20+1), d in 1..=8 (rarely up to 24, very rarely up to 300 incl. 63..65, 128, 129, 255..257; w != d in most cases, both w > d and d > w), counter type in {u8,u16,u32,u64,usize}, hashers incl. row colliders (Split with chosen h1/h2, Const, Mod), universe <=32 keys, history of add/add_n/merge/clear with weights scaled to the remaining head-room so the documented overflow panic is never provoked. After every op, for every universe key: true(x) <= query_point(x) <= N; add/add_n return == query_point right after; a single distinct element is exact. Non-trivial: an overestimate was observed (two keys share a cell in every row), or a merge followed by an add, or w != d with d >= 2. Distinct = hash of the case; evaluations = operations executed. extend_path: default-hasher CountMinSketch (w 1..64, d 1..4) fed through Extend::extend in generated chunks: query_point never below the true count after any chunk and equal to a sketch filled by add calls. hash_iter: HashIterBuilder::new(m, k, hasher) for m in 1..2^31 and k in 0..=40 under the generated hasher families: iter_for yields exactly k values, all in [0, m), deterministically, f(i) in [0, m), and values #2.. equal (h1 + i*h2 + f(i)) mod m with h1, h2 solved from values #0 and #1 (the documented enhanced double hashing). giant_tables: u8 sketches with w = 2^31+3, 2^32+1 (d = 1) and 2^30 (d = 3): getters, add's return value == query_point, true <= query_point <= N for 60 keys.");
     ctx.assume("weights never overflow the counter type (checked_add panic is documented behaviour and not generated)");
     ctx.run_regressions(&[&C02]);
     let t = ctx.tier;
@@ -229,6 +237,7 @@ pub fn run(ctx: &Ctx) {
     ctx.run_random(&super::extendpaths::ExtCms, t.pick(30_000, 300_000), super::extendpaths::cms_strategy);
     // the documented contract of the hash iterator both CountMinSketch and BloomFilter index with
     ctx.run_random(&super::extendpaths::HashIterCheck, t.pick(60_000, 600_000), super::extendpaths::hash_iter_strategy);
+    ctx.run_fixed(&super::giant::Giant, super::giant::cms_cases(ctx.seed));
     ctx.require_class("history", "overestimate_observed", 0.2);
     ctx.require_class("history", "merge_then_add", 0.2);
     ctx.require_class("history", "w!=d", 0.6);
